@@ -125,7 +125,7 @@ var bigPointerCompare = map[string][2]int{
 
 func ruleTmpDistinct(w *World, r *RuleResult) {
 	innerFns := map[string]bool{"(*BigInt).inner": true, "(*BigInt).innerOrNil": true, "(*BigInt).innerOrAlias": true, "(*BigInt).innerOrNilOrAlias": true}
-	if !r.need(w, "(*BigInt).inner") || !r.need(w, "(*BigInt).innerOrAlias") {
+	if !r.need(w, "(*BigInt).inner") {
 		return
 	}
 	for _, name := range w.Names {
